@@ -128,6 +128,12 @@ def to_cel(v):
     raise TypeError(f"binding value {v!r}")
 
 
+def runners(runner, n):
+    """per-thread runner names: "interp" / "compiled" for all threads, or "compiled+interp" (cycled) for mixed scenarios"""
+    parts = runner.split("+")
+    return [parts[i % len(parts)] for i in range(n)]
+
+
 def workload(runner, src, binding, evals=1):
     """the documented contract, executed entirely inside the calling thread; returns the list of outcomes"""
     celpy = celpy_mod()
@@ -233,7 +239,7 @@ def initial_state(runner="interp", warm=False):
     celpy.CELParser.CEL_PARSER = None
     previous = sys.getrecursionlimit()
     if warm:
-        celpy.Environment(runner_class=celpy.InterpretedRunner if runner == "interp" else celpy.CompiledRunner)
+        celpy.Environment(runner_class=celpy.InterpretedRunner if runners(runner, 1)[0] == "interp" else celpy.CompiledRunner)
     sys.setrecursionlimit(DEFAULT_RECURSION_LIMIT)
     state = State()
     state.previous_limit = previous
@@ -246,7 +252,7 @@ def solo(runner, programs, bindings, evals=1, state=None):
     try:
         for src, b in zip(programs, bindings):
             state.restore()
-            out.append(workload(runner, src, b, evals)())
+            out.append(workload(runners(runner, len(programs))[len(out)], src, b, evals)())
     finally:
         state.close() if own else state.restore()
     return out
@@ -343,7 +349,7 @@ def run_forced(runner, programs, bindings, schedule, evals=1, state=None):
     start = threading.Barrier(n)
 
     def body(t):
-        fn = workload(runner, programs[t], bindings[t], evals)
+        fn = workload(runners(runner, n)[t], programs[t], bindings[t], evals)
         start.wait()
         with g.lock:
             g.threads[threading.get_ident()] = t
